@@ -60,6 +60,8 @@ pub struct Faults {
     pub header_fail: usize,
     /// fail this many upcoming get_best_block calls (transient)
     pub best_fail: usize,
+    /// answer this many more transaction RPCs, then take the RPC interface down (rpc_up = false)
+    pub rpc_down_after: Option<usize>,
 }
 
 pub struct NodeState {
@@ -184,6 +186,14 @@ impl NodeState {
     fn next_rpc_fails(&mut self) -> bool {
         let i = self.rpc_calls;
         self.rpc_calls += 1;
+        if let Some(n) = self.faults.rpc_down_after {
+            if n == 0 {
+                self.faults.rpc_down_after = None;
+                self.rpc_up = false;
+            } else {
+                self.faults.rpc_down_after = Some(n - 1);
+            }
+        }
         !self.up || !self.rpc_up || self.faults.rpc_fail_at.contains(&i)
     }
 
